@@ -569,7 +569,7 @@ pub fn c18(ctx: &mut Ctx) {
 pub fn c12(ctx: &mut Ctx) {
     let dict = FstDictionary::curated();
     let corpus = load_corpus();
-    let n = ctx.budget(60_000, 2_000_000);
+    let n = ctx.budget(60_000, 1_200_000);
     let mut rng = ctx.rng_global("c12");
     let mut lg = LintGroup::new_curated(dict.clone(), Dialect::American);
     lg.set_all_rules_to(Some(true));
